@@ -69,6 +69,15 @@ manifest = {
                           'generation sharded over 16 processes, explicit '
                           'reference oracles per property, shrinking to a '
                           'JSON replay file',
+    }, {
+        'name': 'atheris-text-fuzzer',
+        'path': 'checks/fuzz_text.py',
+        'serves_properties': ['C04', 'C09'],
+        'kind_free_text': 'coverage-guided fuzzing (atheris/libFuzzer) of the '
+                          'Manifest text loader with the C09 reference '
+                          'grammar / C04 framework invariants as in-target '
+                          'oracle; run as the "atheris" part of those checks '
+                          '(skipped and counted if atheris is not installed)',
     }],
     'checks': checks,
     'not_applicable': na,
